@@ -63,8 +63,13 @@ func c09Effects(c *Ctx) {
 			}
 		}
 	}
-	r.Check(len(exempt) == 1, "C09/R1", "node.processMessage:exemption", "the only unverified event is the opening proposal (message.Event == event_sig_proposal_init)", c.PosOf(v),
-		sprintf("%d exemption tests recognised around verifyMessage (expected exactly the `message.Event != EventInitProposal` guard)", len(exempt)))
+	// the exemption may also live inside verifyMessage (an early `return nil` for the opening proposal)
+	inVerify := 0
+	if vfn := c.P.Func(pkgNode, "BaseNodeService", "verifyMessage"); vfn != nil {
+		inVerify = len(c09VerifyExemptions(vfn))
+	}
+	r.Check(len(exempt)+inVerify == 1, "C09/R1", "node.processMessage:exemption", "the only unverified event is the opening proposal (message.Event == event_sig_proposal_init)", c.PosOf(v),
+		sprintf("%d exemption tests recognised around verifyMessage and %d inside it (expected exactly the `message.Event != EventInitProposal` guard)", len(exempt), inVerify))
 	cut := append(append([]ssax.Edge{}, guard...), exempt...)
 	// effect census
 	type eff struct {
@@ -145,6 +150,45 @@ func c09Effects(c *Ctx) {
 	}
 }
 
+// c09VerifyExemptions: equal edges of `message.Event == event_sig_proposal_init` tests in verifyMessage that let a nil
+// return through without a signature check.
+func c09VerifyExemptions(fn *ssa.Function) []ssax.Edge {
+	var okEdges []ssax.Edge
+	for _, vf := range ssax.CallsTo(fn, "crypto/ed25519.Verify") {
+		okEdges = append(okEdges, ssax.BoolEdgesOfCall(fn, vf, -1, true)...)
+	}
+	for _, s := range ssax.CallsTo(fn, load.Module+"/"+pkgNode+".(BaseNodeService).GetSkipCommKeysVerification") {
+		okEdges = append(okEdges, ssax.BoolEdgesOfCall(fn, s, -1, true)...)
+	}
+	var out []ssax.Edge
+	for _, cd := range ssax.Conds(fn) {
+		if cd.Op != token.EQL && cd.Op != token.NEQ {
+			continue
+		}
+		for _, pr := range [][2]ssa.Value{{cd.X, cd.Y}, {cd.Y, cd.X}} {
+			if s, ok := ssax.ConstString(pr[1]); !ok || s != evSigInit || ssax.Path(pr[0]) != "message.Event" {
+				continue
+			}
+			e, _ := cd.EdgeWhere(token.EQL)
+			lets := false
+			for _, ret := range ssax.Returns(fn) {
+				if ret.Block() == fn.Recover || len(ret.Results) != 1 {
+					continue
+				}
+				for _, lf := range ssax.Leaves(ret.Results[0], ret) {
+					if ssax.IsNilConst(lf.V) && ssax.ReachableAvoiding(fn, lf.At, okEdges, nil) && !ssax.ReachableAvoiding(fn, lf.At, append(append([]ssax.Edge{}, okEdges...), e), nil) {
+						lets = true
+					}
+				}
+			}
+			if lets {
+				out = append(out, e)
+			}
+		}
+	}
+	return out
+}
+
 func c09Verify(c *Ctx) {
 	r := c.R
 	fn := c.Fn("C09/R2", pkgNode, "BaseNodeService", "verifyMessage")
@@ -164,6 +208,8 @@ func c09Verify(c *Ctx) {
 	for _, s := range skips {
 		okEdges = append(okEdges, ssax.BoolEdgesOfCall(fn, s, -1, true)...)
 	}
+	// (or behind the opening-proposal exemption, when the caller's guard was moved into this function; C09/R1 counts it)
+	okEdges = append(okEdges, c09VerifyExemptions(fn)...)
 	// every `return nil` lies behind one of those edges
 	n := 0
 	for _, ret := range ssax.Returns(fn) {
